@@ -330,6 +330,8 @@ theorem plan_getObject (b k : Bytes) : ∀ t ∈ (plan e enc (.getObject b k)).t
   simp only [plan]
   refine forall_withPath forall_nil fun p hp => ?_
   have h1 : P e enc (.getObject b k) ⟨.read, .path p⟩ := L_obj hr (brd (by simp [readBuckets])) hp
+  refine forall_withPath (by touch_list <;> solve_by_elim) fun bp hbp => ?_
+  have h0 : P e enc (.getObject b k) ⟨.read, .path bp⟩ := L_bucket hr (brd (by simp [readBuckets])) hbp
   refine forall_withPath (by touch_list <;> solve_by_elim) fun m hm => ?_
   have h2 : P e enc (.getObject b k) ⟨.read, .path m⟩ :=
     L_name hr (good_metadataName he b k (by simp)) ⟨rfl, .inl rfl⟩ hm
@@ -393,6 +395,8 @@ theorem plan_copyObject (ap : Bool) (sb sk b k : Bytes) :
   refine forall_withPath forall_nil fun src hsrc => ?_
   refine forall_withPath forall_nil fun dst hdst => ?_
   have h1 : P e enc (.copyObject ap sb sk b k) ⟨.read, .path src⟩ := L_obj hr (brd (by simp [readBuckets])) hsrc
+  refine forall_withPath (by touch_list <;> solve_by_elim) fun sbp hsbp => ?_
+  have h0 : P e enc (.copyObject ap sb sk b k) ⟨.read, .path sbp⟩ := L_bucket hr (brd (by simp [readBuckets])) hsbp
   refine forall_withPath (by touch_list <;> solve_by_elim) fun bp hbp => ?_
   have h2 : ∀ acc, P e enc (.copyObject ap sb sk b k) ⟨acc, .path bp⟩ :=
     fun _ => L_bucket hr (bw (by simp [writeBuckets])) hbp
@@ -525,9 +529,15 @@ theorem plan_uploadPartCopy (ap : Bool) (sb sk b k uid : Bytes) (part : Int) (c 
     refine forall_withPath hpre fun pp hpp => ?_
     have h5 : P e enc (.uploadPartCopy ap sb sk b k uid part c) ⟨.read, .path src⟩ :=
       L_obj hr (brd (by simp [readBuckets])) hsrc
-    have hpre2 : ∀ t ∈ ([] : List Touch) ++ [rd info] ++ [rd src],
+    have hpre1 : ∀ t ∈ ([] : List Touch) ++ [rd info] ++ [rd src],
         P e enc (.uploadPartCopy ap sb sk b k uid part c) t :=
       forall_append hpre (by touch_list <;> solve_by_elim)
+    refine forall_withPath hpre1 fun sbp hsbp => ?_
+    have h6 : P e enc (.uploadPartCopy ap sb sk b k uid part c) ⟨.read, .path sbp⟩ :=
+      L_bucket hr (brd (by simp [readBuckets])) hsbp
+    have hpre2 : ∀ t ∈ ([] : List Touch) ++ [rd info] ++ [rd src] ++ [rd sbp],
+        P e enc (.uploadPartCopy ap sb sk b k uid part c) t :=
+      forall_append hpre1 (by touch_list <;> solve_by_elim)
     refine forall_withPath hpre2 fun tmp htmp => ?_
     have h2 : ∀ acc, P e enc (.uploadPartCopy ap sb sk b k uid part c) ⟨acc, .path pp⟩ :=
       fun _ => L_name hr (good_uploadPartName hu part) ⟨u, hpu, .inr (.inl rfl)⟩ hpp
